@@ -58,6 +58,8 @@ func (s *HASyncer) BroadcastOneForVerif() (*SyncMessage, bool) {
 // a threshold is crossed, and notifies the registered handlers with the corresponding event. Setting the
 // flag to its current value does nothing (the monitor only reports transitions).
 func (m *HealthMonitor) SetPartnerHealthyForVerif(healthy bool) {
+	m.notifyMu.Lock()
+	defer m.notifyMu.Unlock()
 	m.mu.Lock()
 	if m.health.Healthy == healthy {
 		m.mu.Unlock()
